@@ -28,6 +28,11 @@ class Sym:
     def __repr__(self):
         return self.name
 
+    def __str__(self):
+        # str(obj), format(obj) and f-strings use the modelled object's own __str__ when it has one
+        m = self.methods.get("__str__")
+        return m() if m is not None else self.name
+
 
 SAFE_METHODS = {
     list: {"append", "extend", "insert", "pop", "index", "copy", "count", "reverse"},
@@ -381,10 +386,14 @@ class MiniEval:
         if self.expr_compare and (isinstance(left, Rec) or isinstance(right, Rec)) and not isinstance(op, (ast.Is, ast.IsNot, ast.In, ast.NotIn)):
             # PyTeal overloads comparison operators on expressions: the result is an expression term
             return Rec("call", Rec("name", "$cmp:" + type(op).__name__), [left, right], {})
-        if isinstance(op, ast.Eq):
-            return left == right
-        if isinstance(op, ast.NotEq):
-            return left != right
+        if isinstance(op, (ast.Eq, ast.NotEq)):
+            if isinstance(left, Sym) and "__eq__" in left.methods:
+                res = self.truth(left.methods["__eq__"](right))
+            elif isinstance(right, Sym) and "__eq__" in right.methods:
+                res = self.truth(right.methods["__eq__"](left))
+            else:
+                res = left == right
+            return res if isinstance(op, ast.Eq) else (not res)
         if isinstance(op, ast.Is):
             return left is right or (isinstance(left, Rec) and isinstance(right, Rec) and left == right)
         if isinstance(op, ast.IsNot):
@@ -526,7 +535,8 @@ class MiniEval:
                     return v.attrs["$type"]
                 if isinstance(v, (int, str, list, tuple, dict, bool, bytes, bytearray, type(None), float, set)):
                     return type(v)
-                raise AnalysisError(f"{self.where}: type() of abstract value in `{u(e)}`")
+                # an abstract object: its class is some user class, never a builtin type
+                return Sym("class:<abstract>", attrs={"classname": "<abstract>"})
             if f.id in self.env:
                 fn = self.env[f.id]
                 args, kwargs = self._args(e)
